@@ -45,12 +45,85 @@ namespace oratio_verif
       return {};
     }
 
+    // exact dump of the search state: trail with levels and reasons, decisions, clauses in creation order with
+    // their literals in storage order, watch lists (clauses numbered by position in `constrs`)
+    static std::string search_str(const sat_core &s)
+    {
+      std::string r = "trail:";
+      for (const auto &l : s.trail)
+      {
+        r += " " + lit_str(l) + "@" + std::to_string(s.level[variable(l)]);
+        if (s.reason[variable(l)])
+        {
+          const auto it = std::find(s.constrs.begin(), s.constrs.end(), s.reason[variable(l)]);
+          r += "r" + (it == s.constrs.end() ? std::string("?") : std::to_string(it - s.constrs.begin()));
+        }
+      }
+      r += " | dec:";
+      for (const auto &l : s.decisions)
+        r += " " + lit_str(l);
+      r += " | q:" + std::to_string(s.prop_q.size()) + " | cls:";
+      for (const auto &c : clauses(s))
+      {
+        r += "[";
+        for (size_t i = 0; i < c.size(); ++i)
+          r += (i ? " " : "") + lit_str(c[i]);
+        r += "]";
+      }
+      r += " | w:";
+      for (size_t i = 0; i < s.watches.size(); ++i)
+        if (!s.watches[i].empty())
+        {
+          r += " " + std::string((i & 1) ? "+" : "-") + std::to_string(i >> 1) + ":";
+          for (size_t k = 0; k < s.watches[i].size(); ++k)
+          {
+            const auto it = std::find(s.constrs.begin(), s.constrs.end(), s.watches[i][k]);
+            r += (k ? "," : "") + (it == s.constrs.end() ? std::string("?") : std::to_string(it - s.constrs.begin()));
+          }
+        }
+      return r;
+    }
+
     // canonical dumps --------------------------------------------------------------------
     static std::string vals_str(const sat_core &s)
     {
       std::string r;
       for (const auto &a : s.assigns)
         r += a == True ? 'T' : (a == False ? 'F' : 'U');
+      return r;
+    }
+    // the clause database modulo the current root values: satisfied clauses dropped, false literals removed
+    static std::string clauses_simplified_str(const sat_core &s)
+    {
+      std::vector<std::vector<size_t>> cs;
+      for (const auto &c : clauses(s))
+      {
+        std::vector<size_t> ix;
+        bool sat = false;
+        for (const auto &l : c)
+        {
+          const lbool v = s.value(l);
+          if (v == True)
+            sat = true;
+          else if (v == Undefined)
+            ix.push_back(index(l));
+        }
+        if (sat)
+          continue;
+        std::sort(ix.begin(), ix.end());
+        ix.erase(std::unique(ix.begin(), ix.end()), ix.end());
+        cs.push_back(ix);
+      }
+      std::sort(cs.begin(), cs.end());
+      cs.erase(std::unique(cs.begin(), cs.end()), cs.end());
+      std::string r;
+      for (const auto &c : cs)
+      {
+        r += "[";
+        for (size_t i = 0; i < c.size(); ++i)
+          r += (i ? " " : "") + std::string((c[i] & 1) ? "+" : "-") + std::to_string(c[i] >> 1);
+        r += "]";
+      }
       return r;
     }
     static std::string clauses_str(const sat_core &s)
